@@ -3,6 +3,7 @@ package main
 import (
 	"fmt"
 	"go/types"
+	"os"
 	"sort"
 	"strings"
 
@@ -294,6 +295,24 @@ func ruleR3(c *Ctx, prop string) {
 	for _, k := range sortedKeys(r.unknown) {
 		c.undecided("R3", "R3:unknown-external:"+k, r.unknown[k][0], "external symbol without a contract receives a reference the library does not own ("+strings.Join(r.unknown[k], " ")+"); write a contract in contracts.go")
 	}
+	if dbg := os.Getenv("E2TOKENS"); dbg != "" {
+		for _, f := range c.libFns {
+			if !strings.HasSuffix(fname(f), dbg) {
+				continue
+			}
+			fmt.Println("E2TOKENS", fname(f))
+			for _, p := range f.Params {
+				fmt.Printf("   param %s: %v\n", p.Name(), sortedKeysTok(r.tok[p]))
+			}
+			for _, b := range f.Blocks {
+				for _, in := range b.Instrs {
+					if v, ok := in.(ssa.Value); ok && len(r.tok[v]) > 0 {
+						fmt.Printf("   %s = %s: %v\n", v.Name(), in.String(), sortedKeysTok(r.tok[v]))
+					}
+				}
+			}
+		}
+	}
 	scope := c.scopeFor(prop, ef)
 	counts := map[string]int{}
 	n := 0
@@ -452,6 +471,11 @@ func (c *Ctx) scopeFor(prop string, ef *effects) scopeFn {
 			}
 		}
 		return func(f *ssa.Function) bool { return reach[f] }
+	case "C12":
+		// the decoders: everything in package onnx that is hand-written
+		return func(f *ssa.Function) bool {
+			return fnPkgPath(f) == pkgOnnx && !strings.HasSuffix(c.fileOf(f.Pos()), ".pb.go")
+		}
 	case "C14", "C03":
 		var roots []*ssa.Function
 		for _, f := range c.libFns {
@@ -743,4 +767,13 @@ func countLevelC(r *e2Result) int {
 		}
 	}
 	return n
+}
+
+func sortedKeysTok(t tokset) []string {
+	var out []string
+	for k := range t {
+		out = append(out, k)
+	}
+	sort.Strings(out)
+	return out
 }
